@@ -219,33 +219,45 @@ def run_stream(pid, stream, n, seed, tier, corpus_lines):
         threads.append(th)
     for th in threads:
         th.join()
-    results = []
-    for o, aborted in slots:
+    for _, aborted in slots:
         aborted_all += aborted
-        impl = [l for l in open(o + ".impl").read().splitlines() if l.strip()] if os.path.exists(o + ".impl") else []
-        model = [l for l in open(o + ".model").read().splitlines() if l.strip()] if compare and os.path.exists(o + ".model") else []
-        for j, l in enumerate(impl):
-            try:
-                a = json.loads(l)
-            except Exception:
-                crashed.append(f"{o}: bad impl line {j}")
-                continue
-            b = None
-            if compare:
-                if j < len(model):
-                    try:
-                        b = json.loads(model[j])
-                    except Exception:
-                        b = {"model": None, "error": "bad model line"}
-                else:
-                    b = {"model": None, "error": "driver produced no line"}
-            results.append((a, b))
-    # a case that kills or hangs the process is a totality failure (property C18), reported under that key
-    for ab in aborted_all:
-        a = {"stream": name, "case": ab["case"], "impl": ab["kind"], "tags": ["process-" + ab["kind"]],
-             "oracle": [{"key": f"C18/{name}/process-{ab['kind']}", "what": f"the process was killed ({ab['kind']}) while evaluating this case: {ab['stderr'][-200:]}"}]}
-        results.append((a, None))
-    return results, crashed, time.time() - t0
+    dt = time.time() - t0
+
+    def nonblank(path):
+        if not os.path.exists(path):
+            return
+        with open(path) as fh:
+            for l in fh:
+                if l.strip():
+                    yield l
+
+    def results():
+        # streamed: a thorough run has millions of cases, only counters and failures are kept by the caller
+        for o, _ in slots:
+            model = nonblank(o + ".model") if compare else None
+            for j, l in enumerate(nonblank(o + ".impl")):
+                ml = next(model, None) if model is not None else None
+                try:
+                    a = json.loads(l)
+                except Exception:
+                    crashed.append(f"{o}: bad impl line {j}")
+                    continue
+                b = None
+                if compare:
+                    if ml is not None:
+                        try:
+                            b = json.loads(ml)
+                        except Exception:
+                            b = {"model": None, "error": "bad model line"}
+                    else:
+                        b = {"model": None, "error": "driver produced no line"}
+                yield (a, b)
+        # a case that kills or hangs the process is a totality failure (property C18), reported under that key
+        for ab in aborted_all:
+            a = {"stream": name, "case": ab["case"], "impl": ab["kind"], "tags": ["process-" + ab["kind"]],
+                 "oracle": [{"key": f"C18/{name}/process-{ab['kind']}", "what": f"the process was killed ({ab['kind']}) while evaluating this case: {ab['stderr'][-200:]}"}]}
+            yield (a, None)
+    return results(), crashed, dt
 
 
 def load_known():
@@ -413,8 +425,6 @@ def main():
                 res, crashed, dt = run_stream(pid, dict(s, min_per_proc=10**9), 0, seed, tier, corpus)
             else:
                 res, crashed, dt = run_stream(pid, s, n, seed, tier, corpus)
-            for c in crashed:
-                broken.append({"kind": "harness-crash", "name": f"stream {s['name']}", "detail": c})
             st = collections.Counter()
             for a, b in res:
                 evaluations += 1
@@ -446,6 +456,8 @@ def main():
                         mismatches.append({"stream": s["name"], "case": a["case"], "impl": a["impl"], "model": b.get("model"), "model_error": b.get("error")})
                     else:
                         st["model-agree"] += 1
+            for c in crashed:
+                broken.append({"kind": "harness-crash", "name": f"stream {s['name']}", "detail": c})
             stream_stats[s["name"]] = dict(st, wall_s=round(dt, 1))
             log(f"[{pid}] stream {s['name']}: {dict(st)} in {dt:.0f}s")
     # mismatches: a correspondence break
